@@ -64,8 +64,21 @@ func factsC13() {
 	emitStr("postingsKeyPreimage", "pkg/store/cache/cache.go CacheKey.String: the string hashed for a postings key", pre)
 
 	g := parse("pkg/store/cache/matchers_cache.go")
+	ck := fn(g, "", "cacheKey")
 	emitList("matcherKeyWrites", "pkg/store/cache/matchers_cache.go cacheKey: what is written to the key, in order",
-		writeArgs(body(fn(g, "", "cacheKey")), "sb"))
+		writeArgs(body(ck), "sb"))
+	// how the length prefix of the key is computed
+	nameLen := "unknown"
+	if ck != nil && ck.Body != nil {
+		ast.Inspect(ck.Body, func(n ast.Node) bool {
+			if as, ok := n.(*ast.AssignStmt); ok && len(as.Lhs) == 1 && len(as.Rhs) == 1 && text(as.Lhs[0]) == "nameLen" {
+				nameLen = text(as.Rhs[0])
+				return false
+			}
+			return true
+		})
+	}
+	emitStr("matcherKeyNameLen", "pkg/store/cache/matchers_cache.go cacheKey: the length prefix", nameLen)
 }
 
 func factsC12() {
@@ -200,6 +213,14 @@ func factsC14() {
 			return true
 		})
 	}
+	// every test that involves the (possibly shorter) last subrange of the object
+	var last []string
+	for _, c := range append(condSeq(body(cg)), condSeq(body(fn(f, "CachingBucket", "fetchMissingSubranges")))...) {
+		if strings.Contains(c, "lastSubrangeOffset") || strings.Contains(c, "endRange > attrs.Size") || strings.Contains(c, "attrs.Size") {
+			last = append(last, c)
+		}
+	}
+	emitList("lastSubrangeConds", "pkg/store/cache/caching_bucket.go: the tests on attrs.Size / the last subrange in cachedGetRange and fetchMissingSubranges", last)
 	emitStr("subrangeStoreCond", "pkg/store/cache/caching_bucket.go fetchMissingSubranges: a fetched subrange is kept and stored only if", store)
 }
 
